@@ -15,8 +15,11 @@ def sh(cmd, cwd=None, env=None, timeout=3600):
     return p.returncode, p.stdout.decode("utf-8", "replace")
 
 
+PREFIX = {"A": "/tmp/wt-", "B": "/tmp/wt-", "C": "/tmp/w2-", "D": "/tmp/w2-"}
+
+
 def evaluate(prop, variant, checks, tier):
-    wt = "/tmp/wt-" + prop
+    wt = PREFIX[variant] + prop
     patch = os.path.join(wt, "SEEDED", variant + ".patch.diff")
     if not os.path.exists(patch):
         return None
@@ -38,7 +41,7 @@ def evaluate(prop, variant, checks, tier):
                 break
         res["checks"] = {}
         for ck in checks:
-            env = {"VERIF_REPO": wt, "VERIF_CACHE": "/tmp/vc-" + prop, "VERIF_OUT": "/tmp/vo-%s-%s" % (prop, variant), "VERIF_SEED": os.environ.get("VERIF_SEED", "0")}
+            env = {"VERIF_REPO": wt, "VERIF_CACHE": "/tmp/vc-" + prop + ("" if variant in "AB" else "-2"), "VERIF_OUT": "/tmp/vo-%s-%s" % (prop, variant), "VERIF_SEED": os.environ.get("VERIF_SEED", "0")}
             t0 = time.time()
             rc, o = sh([os.path.join(V, "check"), ck, tier], cwd=V, env=env, timeout=7200)
             sigs = [l.strip()[len("signature: "):] for l in o.splitlines() if l.strip().startswith("signature:")]
@@ -52,12 +55,16 @@ def evaluate(prop, variant, checks, tier):
 if __name__ == "__main__":
     args = sys.argv[1:]
     tier, checks_override = "quick", None
+    variants = ("A", "B")
     props = []
     i = 0
     while i < len(args):
         if args[i] == "--checks":
             i += 1
             checks_override = args[i].split(",")
+        elif args[i] == "--variants":
+            i += 1
+            variants = tuple(args[i].split(","))
         elif args[i] == "--tier":
             i += 1
             tier = args[i]
@@ -65,7 +72,7 @@ if __name__ == "__main__":
             props.append(args[i])
         i += 1
     for p in props:
-        for v in ("A", "B"):
+        for v in variants:
             r = evaluate(p, v, checks_override or [p], tier)
             if r:
                 ck = r.get("checks", {})
